@@ -71,13 +71,13 @@ def lsTag : Str := "instance('__last-saved')".toList
 def parseCore (current : Bool) (s : Str) : Option Hole :=
   if startsWith s lsTag then
     if current then none else (parseAbs (s.drop lsTag.length)).map fun p => ⟨false, .lastSaved p⟩
-  else match s with
-    | '/' :: _ => if current then none else (parseAbs s).map fun p => ⟨false, .abs p⟩
-    | _ =>
-      let segs := splitOnChar '/' s
-      let k := countLeadingDotDot segs
-      let down := segs.drop k
-      if k > 0 && !down.isEmpty && down.all goodSeg then some ⟨current, .rel k down⟩ else none
+  else if s.head? = some '/' then
+    if current then none else (parseAbs s).map fun p => ⟨false, .abs p⟩
+  else
+    let segs := splitOnChar '/' s
+    let k := countLeadingDotDot segs
+    let down := segs.drop k
+    if k > 0 && !down.isEmpty && down.all goodSeg then some ⟨current, .rel k down⟩ else none
 
 /-- `[current()/](../)^k name/…`, `/abs/path`, or `instance('__last-saved')/abs/path` -/
 def parseHole (s0 : Str) : Option Hole :=
